@@ -285,9 +285,8 @@ Conversion<Unit::ThermalConductivity, Unit::ThermalConductivity::PoundPerSecondP
 }
 
 template <typename NumericType>
-inline const std::map<Unit::ThermalConductivity,
-                      std::function<void(NumericType* values, const std::size_t size)>>
-    MapOfConversionsFromStandard<Unit::ThermalConductivity, NumericType>{
+inline constexpr auto MapOfConversionsFromStandard<Unit::ThermalConductivity, NumericType>{
+  MakeConversionTable<Unit::ThermalConductivity, NumericType>({
       {Unit::ThermalConductivity::WattPerMetrePerKelvin,
        Conversions<Unit::ThermalConductivity, Unit::ThermalConductivity::WattPerMetrePerKelvin>::
            FromStandard<NumericType>},
@@ -298,12 +297,12 @@ inline const std::map<Unit::ThermalConductivity,
       {Unit::ThermalConductivity::PoundPerSecondPerRankine,
        Conversions<Unit::ThermalConductivity, Unit::ThermalConductivity::PoundPerSecondPerRankine>::
            FromStandard<NumericType>},
+})
 };
 
 template <typename NumericType>
-inline const std::map<Unit::ThermalConductivity,
-                      std::function<void(NumericType* const values, const std::size_t size)>>
-    MapOfConversionsToStandard<Unit::ThermalConductivity, NumericType>{
+inline constexpr auto MapOfConversionsToStandard<Unit::ThermalConductivity, NumericType>{
+  MakeConversionTable<Unit::ThermalConductivity, NumericType>({
       {Unit::ThermalConductivity::WattPerMetrePerKelvin,
        Conversions<Unit::ThermalConductivity, Unit::ThermalConductivity::WattPerMetrePerKelvin>::
            ToStandard<NumericType>},
@@ -314,6 +313,7 @@ inline const std::map<Unit::ThermalConductivity,
       {Unit::ThermalConductivity::PoundPerSecondPerRankine,
        Conversions<Unit::ThermalConductivity, Unit::ThermalConductivity::PoundPerSecondPerRankine>::
            ToStandard<NumericType>},
+})
 };
 
 }  // namespace Internal
